@@ -61,11 +61,26 @@ static int tostring_ok(rf_wavheader_t *h)
 }
 
 /* ------------------------------- C13: init ------------------------------- */
-static void prior_fill(rf_wavheader_t *h, int kind)
+static void prior_fill(rf_wavheader_t *h, int kind, uint32_t rate, unsigned ch, int f)
 {
 	if (kind == 0) memset(h, 0, sizeof(*h));
 	else if (kind == 1) memset(h, 0xA5, sizeof(*h));
-	else { memset(h, 0, sizeof(*h)); rf_wavheader_init(h, 48000, 2, RF_WAVHEADER_FLOAT); rf_wavheader_set_num_frames(h, 77); }
+	else if (kind == 2) { memset(h, 0, sizeof(*h)); rf_wavheader_init(h, 48000, 2, RF_WAVHEADER_FLOAT); rf_wavheader_set_num_frames(h, 77); }
+	else {
+		/* a valid-looking header for the VERY SAME rate, channels and format that did not come from init: as decoded from a
+		 * file whose RIFF size counts a trailing chunk (3), with a byte rate of its own (4), or an extensible one (5) */
+		memset(h, 0, sizeof(*h));
+		rf_wavheader_init(h, rate, ch, (rf_wavheader_format_t)f);
+		rf_wavheader_set_num_frames(h, 77);
+		h->chunk_size += 30;
+		if (kind == 4) { h->byte_rate += 1; h->sample_length += 5; }
+		if (kind == 5) {
+			h->audio_format = 0xfffe; h->chunk_size += 40 - h->fmt_chunk_size; h->fmt_chunk_size = 40; h->cb_size = 22;
+			h->valid_bits_per_sample = h->bits_per_sample; h->channel_mask = 3;
+			h->sub_format[0] = f == 2 ? 3 : 1;
+			for (int i = 2; i < 16; i++) h->sub_format[i] = (uint8_t)(0x40 + i);
+		}
+	}
 }
 static uint32_t frames0_of(int prior, uint32_t frames) { return prior == 1 ? 0xffffffffu : (frames * 7u + 3u) % 5000u; }
 static int force_frames0_set;
@@ -74,7 +89,7 @@ static void init_case(int prior, int f, unsigned ch, uint32_t rate, uint32_t fra
 {
 	rf_wavheader_t *h = malloc(sizeof(*h)), *d = malloc(sizeof(*d));
 	uint8_t *buf = malloc(128);
-	prior_fill(h, prior);
+	prior_fill(h, prior, rate, ch, f);
 	rf_wavheader_init(h, rate, ch, (rf_wavheader_format_t)f);
 	/* prior kinds 0 and 2: the frame count is set twice (a first, different count, then the final one) */
 	uint32_t frames0 = force_frames0_set ? force_frames0 : frames0_of(prior, frames);
@@ -117,10 +132,11 @@ static void gen_init(int thorough)
 			for (uint32_t k = 0; k < 6 && k <= top; k++)
 				init_case(k % 3, f, chs[c], k & 1 ? 8000 : 44100, top - k);
 		}
-	for (int prior = 0; prior < 3; prior++)
+	for (int prior = 0; prior < 6; prior++)
 		for (int f = 0; f < 3; f++)
 			for (int c = 0; c < 4; c++)
 				for (int r = 0; r < 7; r++) {
+					if (prior >= 3 && (r > 3 || (!thorough && (c + r + prior) % 2))) continue;
 					unsigned ba = chs[c] * (f == 0 ? 2 : 4);
 					if ((uint64_t)rates[r] * ba > 0xffffffffull) continue;      /* scope: sizes fit in 32 bits */
 					if (r >= 4 && prior == 1) continue;
